@@ -143,6 +143,16 @@ def generate18(R, tier):
     else:
         inner = rngsim.generate(R2, tier, 'C18')
         inner['ops'] = []
+    if sub != 'fcsim':
+        # unusual but legal numeric types of the producers' inputs: integer magnitude edges, single-precision rates
+        if R.random() < 0.15:
+            n_ = len(inner['mags']['edges'])
+            inner['mags'] = {'dm': 1.0, 'edges': [float(4 + k) for k in range(n_)], 'int': True}
+            for o in inner['obs']:
+                for e in o['events']:
+                    e[5] = float(4 + min(n_ - 1, max(0, int(e[5]) % n_))) + 0.5
+        if R.random() < 0.1:
+            inner['rates_dtype'] = 'float32'
     region = gen.gen_lattice(R, max_cells=12, allow_holes=R.random() < 0.5)
     twin18 = gen.lattice_twin(R, region)
     if R.random() < 0.4:
@@ -626,7 +636,7 @@ def _execute18(scn, ctx, store, clock):
         # results of the simulation-free gridded tests on the same world
         fc = build.make_gridded(inner)
         for oi, o in enumerate(inner['obs'][:2]):
-            cat = build.make_catalog(o['events'], region=fc.region, name='obs')
+            cat = build.make_catalog(o['events'], region=fc.region, name=None if inner.get('unnamed') else 'obs')
             for nm, f, kw in (('N', pe.number_test, {}), ('NBD', be.negative_binomial_number_test, {'variance': float(numpy.sum(fc.data)) * 3 + 1.0}),
                               ('T', pe.paired_t_test, None), ('W', pe.w_test, None)):
                 if kw is None:
